@@ -251,6 +251,9 @@ structure Request where
   /-- no RRSIG of the RRset is a candidate at all (`rrsig` is then meaningless); set by
   `MultiRequest.toRequest` -/
   skip : Bool := false
+  /-- the DNSKEY lookup for the RRSIG fails (`Err(ProofErrorKind::Net)`: upstream error, validation depth
+  exceeded): the RRset is Bogus for this response and the verdict is **not** cached -/
+  netError : Bool := false
   deriving Repr, Inhabited
 
 /-- `MAX_RRSIGS_PER_RRSET` -/
@@ -275,7 +278,7 @@ def freshVerdict (sigValid : SigOracle) (r : Request) : Verdict :=
   -- since /repo 207ce2a: an RRSIG whose signer is not the owner or an ancestor of it is skipped without
   -- a DNSKEY lookup (→ `Err(RrsigsNotPresent)`, Bogus); since 4f49cf9 also an RRSIG over a DS RRset
   -- (type 43) that names the DS owner itself as signer
-  if noLookup r then { isOk := false, proof := .bogus, adjustedTtl := none }
+  if noLookup r || r.netError then { isOk := false, proof := .bogus, adjustedTtl := none }
   else
     match verifyRrsigWithKeys sigValid r.dnskeys r.rrsig r.keyName r.keyType r.records r.now with
     | some (p, ttl) => { isOk := true, proof := p, adjustedTtl := ttl }
@@ -307,7 +310,8 @@ def validateG (sigValid : SigOracle) (cfg : CacheConfig) (serve : CacheEntry →
   | some v => (c, v, false)
   | none =>
     let v := freshVerdict sigValid r
-    (cacheInsert cfg c r v, v, true)
+    -- "These could be transient errors that should be retried": a `Net` error is not cached
+    (if !(noLookup r) && r.netError then c else cacheInsert cfg c r v, v, true)
 
 /-- a whole history, oldest request first; returns the per-request (verdict, fresh) list -/
 def runHistoryG (sigValid : SigOracle) (cfg : CacheConfig) (serve : CacheEntry → Request → Option Verdict) :
@@ -391,26 +395,57 @@ structure MultiRequest where
   /-- `Time::current_time()`, seconds since the epoch, `u64` -/
   clock : Nat
   inst : Nat
+  /-- every DNSKEY lookup fails -/
+  netError : Bool := false
+  /-- the name of the original query when that query asks for type DNSKEY (the RRset under validation
+  arrived in the response to it) -/
+  origDnskey : Option Name := none
   deriving Repr, Inhabited
 
-/-- the first candidate RRSIG with its index into the unfiltered list -/
-def firstCandidate (keyName : Name) (keyType : Nat) : Nat → List Rrsig → Option (Nat × Rrsig)
+/-- "Break verification cycle": the DNSKEY query this RRSIG needs (its signer's name, type DNSKEY) is
+the original query itself — `verify_default_rrset` skips the RRSIG without a lookup -/
+def cycleSkip (orig : Option Name) (sig : Rrsig) : Bool :=
+  match orig with
+  | some n => Name.eq sig.input.signer n
+  | none => false
+
+/-- the RRSIGs for which `verify_default_rrset` makes a DNSKEY lookup (`filter_map` over the enumerated,
+unfiltered list) -/
+def MultiRequest.candidate (m : MultiRequest) (i : Nat) (sig : Rrsig) : Bool :=
+  isCandidate m.keyName m.keyType i sig && !cycleSkip m.origDnskey sig
+
+/-- the DNSKEY lookup for this RRSIG ends in `Err` (→ `ProofErrorKind::Net`): upstream failure, or the
+response carries no DNSKEY record at the signer's name (`verify_response`, since /repo 2bee91e: such a
+response does not answer the question → Bogus → `Err`) -/
+def MultiRequest.lookupFails (m : MultiRequest) (sig : Rrsig) : Bool :=
+  m.netError || !(m.dnskeys.any fun kp => Name.eq kp.1.owner sig.input.signer)
+
+/-- the first RRSIG satisfying `p`, with its index into the unfiltered list -/
+def firstCandidate (p : Nat → Rrsig → Bool) : Nat → List Rrsig → Option (Nat × Rrsig)
   | _, [] => none
   | i, sig :: rest =>
-    if isCandidate keyName keyType i sig then some (i, sig) else firstCandidate keyName keyType (i + 1) rest
+    if p i sig then some (i, sig) else firstCandidate p (i + 1) rest
 
 /-- `current_time() as u32` -/
 def clock32 (t : Nat) : Nat := t % M32
 
-/-- the single-RRSIG request the code effectively evaluates, and the `rrsig_index` it reports -/
+/-- the single-RRSIG request the code effectively evaluates, and the `rrsig_index` it reports.
+`future::select_ok` over the candidates' lookups: the first one (list order; the scripted upstream
+answers at once) whose lookup is `Ok` decides — also with `Ok(None)`; a lookup that ends in `Err` passes
+the turn to the next candidate, and when every lookup fails the result is that (Net) error. -/
 def MultiRequest.toRequest (m : MultiRequest) : Request × Option Nat :=
-  match firstCandidate m.keyName m.keyType 0 m.rrsigs with
+  match firstCandidate (fun i sig => m.candidate i sig && !m.lookupFails sig) 0 m.rrsigs with
   | some (i, sig) =>
     ({ ck := m.ck, dnskeys := m.dnskeys, rrsig := sig, keyName := m.keyName, keyType := m.keyType,
        records := m.records, now := clock32 m.clock, inst := m.inst }, some i)
   | none =>
-    ({ ck := m.ck, dnskeys := m.dnskeys, rrsig := default, keyName := m.keyName, keyType := m.keyType,
-       records := m.records, now := clock32 m.clock, inst := m.inst, skip := true }, none)
+    match firstCandidate m.candidate 0 m.rrsigs with
+    | some (i, sig) =>
+      ({ ck := m.ck, dnskeys := m.dnskeys, rrsig := sig, keyName := m.keyName, keyType := m.keyType,
+         records := m.records, now := clock32 m.clock, inst := m.inst, netError := true }, some i)
+    | none =>
+      ({ ck := m.ck, dnskeys := m.dnskeys, rrsig := default, keyName := m.keyName, keyType := m.keyType,
+         records := m.records, now := clock32 m.clock, inst := m.inst, skip := true }, none)
 
 /-- one step of `verify_rrsets` for an RRset with several RRSIGs: new cache, verdict, fresh?, and the
 index (into the unfiltered list) of the RRSIG that gets the proof — `None` for an `Err` result -/
